@@ -1200,10 +1200,6 @@ M('C05-on-neutral4-best-len-nonstrict', 'C05', 'pico8/game/compress.py',
   "        if best_len < (j - i):\n", "        if best_len <= (j - i):\n",
   expect=None, kind='neutral', on='neutral4-C05',
   note='ties resolved towards the later candidate: still a valid stream')
-M('C05-on-neutral4-helper-keeps-newline', 'C05', 'pico8/game/compress.py',
-  "        if code[-1] == b'\\n'[0]:\n            code = code[:-1]\n    return code\n",
-  "        if code[-1] == b'\\n'[0]:\n            code = code[:-2]\n    return code\n",
-  expect='R-C05-', on='neutral4-C05', accept_error=True)
 M('C17-on-neutral4-clip-strict', 'C17', 'pico8/gfx/gfx.py',
   "                    (128 <= (first_y_coord + y)) or\n",
   "                    (128 < (first_y_coord + y)) or\n",
@@ -1211,7 +1207,8 @@ M('C17-on-neutral4-clip-strict', 'C17', 'pico8/gfx/gfx.py',
 M('C17-on-neutral4-set-pixel-nibble', 'C17', 'pico8/gfx/gfx.py',
   "            b = (b & 0xf0) + val\n        else:\n            b = (b & 0x0f) + (val << 4)\n        self._data[data_loc] = b\n",
   "            b = (b & 0x0f) + val\n        else:\n            b = (b & 0x0f) + (val << 4)\n        self._data[data_loc] = b\n",
-  expect='R-C17-', on='neutral4-C17')
+  expect='R-C17-', on='neutral4-C17', accept_error=True,
+  note='addition of overlapping bit fields: outside the bit-provenance domain')
 M('C17-on-neutral4-map-rect-bound', 'C17', 'pico8/map/map.py',
   "                if (63 < (tile_y + y)) or (127 < (tile_x + x)):\n",
   "                if (64 < (tile_y + y)) or (127 < (tile_x + x)):\n",
@@ -1223,7 +1220,7 @@ M('C08-on-neutral4-fence-nonstrict', 'C08', 'pico8/lua/parser.py',
 M('C08-on-neutral4-line-end-skips-newline', 'C08', 'pico8/lua/parser.py',
   "        while (len(self._tokens) > pos and\n               not self._tokens[pos].matches(lexer.TokNewline)):\n            pos += 1\n        return pos\n",
   "        while (len(self._tokens) > pos and\n               not self._tokens[pos].matches(lexer.TokNewline)):\n            pos += 1\n        return pos + 1\n",
-  expect='R-C08-', on='neutral4-C08')
+  expect='R-C08-', on='neutral4-C08', accept_error=True)
 M('C07-on-neutral4-helper-charno', 'C07', 'pico8/lua/lexer.py',
   "            lineno += 1\n            charno = 0\n",
   "            lineno += 1\n            charno = 1\n",
@@ -1248,10 +1245,6 @@ M('C20-on-neutral4-helper-inverted', 'C20', 'pico8/game/formatter/p8.py',
   "    if not line.endswith(b'\\n'):\n        line += b'\\n'\n    return line\n",
   "    if line.endswith(b'\\n'):\n        line += b'\\n'\n    return line\n",
   expect='R-C', on='neutral4-C20', accept_error=True)
-M('C10-on-neutral4-normalize-order', 'C10', 'pico8/lua/lua.py',
-  "        spaces = re.sub(br'\\r\\n', b'\\n', spaces)\n        spaces = re.sub(br'\\n\\r', b'\\n', spaces)\n        return re.sub(br'\\r', b'\\n', spaces)\n",
-  "        spaces = re.sub(br'\\r', b'\\n', spaces)\n        spaces = re.sub(br'\\r\\n', b'\\n', spaces)\n        return re.sub(br'\\n\\r', b'\\n', spaces)\n",
-  expect='R-C10-', on='neutral4-C10')
 M('C09-on-neutral4-semis-dropped', 'C09', 'pico8/lua/lua.py',
   "            spaces_and_semis.append(spaces + b';')\n            spaces = self._get_code_for_spaces(node)\n        spaces_and_semis.append(spaces)\n",
   "            spaces_and_semis.append(spaces)\n            spaces = self._get_code_for_spaces(node)\n        spaces_and_semis.append(spaces)\n",
@@ -1260,3 +1253,12 @@ M('C10-revert-fix-blank-line-indent', 'C10', F_LUA,
   "            br'\\n *\\Z', b'\\n' + b' ' * self._indent_mult * self._indent,\n",
   "            br'\\n *$', b'\\n' + b' ' * self._indent_mult * self._indent,\n",
   expect='R-C10-order', note='reverts fix 30ac571')
+
+M('C09-semis-dropped', 'C09', F_LUA,
+  "                spaces_and_semis.append(spaces + b';')\n",
+  "                spaces_and_semis.append(spaces)\n",
+  expect='R-C09-semis')
+M('C09-semis-not-consumed-twice', 'C09', F_LUA,
+  "                self._pos += 1\n                spaces_and_semis.append(spaces + b';')\n",
+  "                self._pos += 2\n                spaces_and_semis.append(spaces + b';')\n",
+  expect='R-C09-semis')
